@@ -326,13 +326,57 @@ def expand(code, w):
 # ---------------------------------------------------------------------------------------------
 # decoding delta's output
 
-PAL = {"file": "201", "num": "202", "word": "203", "line": "204", "ctx": "205", "hfile": "206", "hunk": "207"}
-PAL_ARGS = ["--no-gitconfig", "--syntax-theme", "none", "--paging", "never",
-            "--grep-file-style", PAL["file"], "--grep-line-number-style", PAL["num"],
-            "--grep-match-word-style", PAL["word"], "--grep-match-line-style", PAL["line"],
-            "--grep-context-line-style", PAL["ctx"], "--grep-header-decoration-style", "none",
-            "--grep-header-file-style", PAL["hfile"], "--hunk-header-style", "file line-number " + PAL["hunk"],
-            "--hunk-header-decoration-style", "none", "--grep-separator-symbol", "keep"]
+PAL = {"file": "201", "num": "202", "word": "203", "line": "204", "ctx": "205", "hfile": "206", "hunk": "207",
+       "deco": "208", "label": "209"}
+BASE_OPTS = {"--no-gitconfig": None, "--syntax-theme": "none", "--paging": "never",
+             "--grep-file-style": PAL["file"], "--grep-line-number-style": PAL["num"],
+             "--grep-match-word-style": PAL["word"], "--grep-match-line-style": PAL["line"],
+             "--grep-context-line-style": PAL["ctx"], "--grep-header-decoration-style": "none",
+             "--grep-header-file-style": PAL["hfile"], "--hunk-header-style": "file line-number " + PAL["hunk"],
+             "--hunk-header-file-style": PAL["label"],
+             "--hunk-header-decoration-style": "none", "--grep-separator-symbol": "keep"}
+# Options whose code the grep rows share (hunk-header helper, decorations, hyperlinks, ...): the hits must keep
+# path, number and code under every one of them. `full_header`: a classic-style function-context header still
+# shows path and number (it is rendered "as a hunk header", i.e. as --hunk-header-style says).
+VARIANTS = [
+    dict(name="base", opts={}, full_header=True),
+    dict(name="hunk-header-style=raw", opts={"--hunk-header-style": "raw"}, full_header=False),
+    dict(name="hunk-header-style=omit", opts={"--hunk-header-style": "omit"}, full_header=False),
+    dict(name="hunk-header-style=file+line-number+syntax,box", full_header=True,
+         opts={"--hunk-header-style": "file line-number syntax", "--hunk-header-decoration-style": PAL["deco"] + " box",
+               "--grep-header-decoration-style": PAL["deco"] + " box"}),
+    dict(name="hunk-header-style=syntax,ul/ol", full_header=False,
+         opts={"--hunk-header-style": "syntax", "--hunk-header-decoration-style": PAL["deco"] + " ul",
+               "--grep-header-decoration-style": PAL["deco"] + " ol"}),
+    dict(name="navigate", opts={"--navigate": None}, full_header=True),
+    dict(name="hyperlinks", opts={"--hyperlinks": None}, full_header=True),
+    dict(name="side-by-side+line-numbers", opts={"--side-by-side": None, "--line-numbers": None, "--width": "100"}, full_header=True),
+    dict(name="color-only", opts={"--color-only": None}, full_header=False, classic_only=True, tabw=0),
+]
+VARIANT_OF = {v["name"]: v for v in VARIANTS}
+# --max-line-length: default (3000), off, small values; rg --json records are exempt, whatever their type
+MLLS = [None, None, 0, 60, 200, None, 0]
+
+
+def make_args(variant, style, tabw, mll):
+    opts = dict(BASE_OPTS)
+    opts.update(variant["opts"])
+    if style != "default":
+        opts["--grep-output-type"] = style
+    if tabw != 8:
+        opts["--tabs"] = str(tabw)
+    if mll is not None:
+        opts["--max-line-length"] = str(mll)
+    args = []
+    for k, v in opts.items():
+        args.append(k)
+        if v is not None:
+            args.append(v)
+    return args
+
+
+OSC8 = re.compile(r"\x1b\]8;[^\x1b\x07]*(?:\x1b\\|\x07)")
+BOX_CHARS = set("─━│┃┐┘┓┛┌└═║ ")
 CSI = re.compile(r"\x1b\[([0-9;:<=>?]*)([ -/]*)([@-~])")
 
 
@@ -405,7 +449,17 @@ def decode_rows(out, style):
     if lines and lines[-1] == "":
         lines.pop()
     for row in lines:
-        segs = segments(row)
+        segs = segments(OSC8.sub("", row))
+        if segs and any(f == PAL["deco"] for f, _ in segs):
+            # decoration cells (box / underline rulers) are not part of what the row says
+            if all(f == PAL["deco"] or not t.strip() for f, t in segs) and all(c in BOX_CHARS for _, t in segs for c in t):
+                continue
+            segs = [(f, t) for f, t in segs if f != PAL["deco"]]
+        if segs and segs[0][0] == PAL["label"]:
+            # hunk label (e.g. the navigate bullet) and the blank after it
+            segs = segs[1:]
+            if segs and segs[0][0] is None and segs[0][1].startswith(" "):
+                segs = ([(None, segs[0][1][1:])] if segs[0][1][1:] else []) + segs[1:]
         plain = "".join(t for _, t in segs)
         if plain == "":
             rows.append(("B",))
@@ -419,14 +473,14 @@ def decode_rows(out, style):
                 # classic function-context header: path = num = code<space>
                 path = segs[0][1]
                 if len(segs) > 2 and segs[2][0] == PAL["num"]:
-                    assert segs[1] == (None, "=") and segs[3][0] is None and segs[3][1] in ("=", "= ")
-                    num, rest = int(segs[2][1]), segs[4:]
+                    assert segs[1] == (None, "=")
+                    num, rest = int(segs[2][1]), segs[3:]
                 else:
-                    assert segs[1][0] is None and segs[1][1] in ("=", "= ")
-                    num, rest = None, segs[2:]
-                text = "".join(t for f, t in rest)
-                assert all(f == PAL["hunk"] for f, _ in rest)
-                rows.append(("F", path, num, text))
+                    num, rest = None, segs[1:]
+                tail = "".join(t for f, t in rest)
+                assert tail.startswith("=") and all(f in (None, PAL["hunk"]) for f, _ in rest)
+                text = tail[1:]
+                rows.append(("F", path, num, "" if text == " " else text))
             elif f0 == PAL["file"] and style == "ripgrep":
                 assert segs[1:] == [(None, " ")]
                 rows.append(("H", segs[0][1]))
@@ -476,12 +530,23 @@ def decode_rows(out, style):
 # ---------------------------------------------------------------------------------------------
 # grep result streams
 
-def gen_stream(rng, flavour=None, probe=None):
-    """A grep result stream: dict(flavour, guess, numbered, lines=[str], hits=[dict|None per line])."""
+def long_filler(rng, n):
+    """Filler text of about n bytes (what a minified / generated source line looks like)."""
+    out = []
+    k = 0
+    while sum(len(x) + 2 for x in out) < n:
+        out.append("0x%04x" % k if rng.random() < 0.9 else rng.choice(["日本", "é", "fn", "tbl[%d]" % k]))
+        k += 1
+    return ", ".join(out)
+
+
+def gen_stream(rng, flavour=None, probe=None, allow_funchdr=True, long_len=0):
+    """A grep result stream: dict(flavour, guess, numbered, lines=[str], hits=[dict|None per line]).
+    long_len > 0: some records (match, context, and for rg --json also begin/end via a long path) exceed it."""
     flavour = flavour or rng.choice(["plain", "plain", "gitcolour", "rgcolour", "json", "json"])
     numbered = rng.random() < 0.65 or flavour == "json" and rng.random() < 0.8
-    context = rng.random() < 0.5
-    funchdr = flavour in ("plain", "gitcolour") and rng.random() < 0.3 and numbered
+    context = rng.random() < 0.5 or (long_len > 0 and flavour == "json")
+    funchdr = allow_funchdr and flavour in ("plain", "gitcolour") and rng.random() < 0.3 and numbered
     wflag = funchdr and rng.random() < 0.4
     if flavour == "json":
         guess = "none"
@@ -500,6 +565,8 @@ def gen_stream(rng, flavour=None, probe=None):
                 continue
             if p not in paths[-1:]:
                 break
+        if long_len and flavour == "json" and rng.random() < 0.3:
+            p = "/".join("dir%03d" % k for k in range(long_len // 7 + 2)) + "/" + p   # long begin/end/match records
         paths.append(p)
     if flavour == "json":
         lines.append(json.dumps({"type": "begin", "data": {"path": {"text": paths[0]}}}))
@@ -529,6 +596,8 @@ def gen_stream(rng, flavour=None, probe=None):
                     if fragment(kind, path, None if num is None else str(num), code) != "-":
                         break
                     code = gen_code(rng, 4)
+            if long_len and rng.random() < 0.4:
+                code = code.rstrip("\t ") + " " + long_filler(rng, long_len + rng.randint(1, 120))
             h = dict(path=path, num=num, kind=kind, code=code, subs=None)
             if flavour == "json":
                 data = code.encode()
@@ -573,14 +642,6 @@ def in_domain(st, style, frags):
             return False, "ambiguous-text-line"
         if st["flavour"] == "gitcolour" and ESC in h["path"]:
             return False, "esc-in-path"
-        if style == "ripgrep" and h["num"] is None and h["code"] == "":
-            return False, "known:row-dropped"
-        if style == "classic" and h["kind"] == "contextheader" and h["num"] is None and not st["wflag"]:
-            return False, "known:header-zero"
-        if h["subs"] is not None:
-            tabs_leading = "\t" not in h["code"].lstrip("\t ")
-            if not tabs_leading and not h["code"].isascii():
-                return False, "known:tab-shift-nonascii"
     return True, ""
 
 
@@ -601,12 +662,8 @@ def shown_rows(rows):
     return out
 
 
-def run_stream(ctx, st, style, tabw):
-    args = list(PAL_ARGS)
-    if style != "default":
-        args += ["--grep-output-type", style]
-    if tabw != 8:
-        args += ["--tabs", str(tabw)]
+def run_stream(ctx, st, style, tabw, variant=None, mll=None):
+    args = make_args(variant or VARIANTS[0], style, tabw, mll)
     data = ("\n".join(st["lines"]) + "\n").encode("utf-8", "surrogateescape")
     rc, out, err = ctx.run_delta(args, data, env={"DELTA_VERIF_FORCE_GUESS": st["guess"]})
     return rc, out.decode("utf-8", "replace"), err.decode("utf-8", "replace"), args, data
@@ -891,7 +948,18 @@ def run(ctx, rep):
             rep.count("sections:invalid-span-panics")
 
     # ---- 4. streams through the real binary
-    streams = [gen_stream(rng) for _ in range(ctx.n(160, 5000))]
+    streams = []
+    for si in range(ctx.n(180, 5000)):
+        variant = VARIANTS[(si // 2) % len(VARIANTS)] if si % 2 else VARIANTS[0]
+        mll = MLLS[si % len(MLLS)]
+        flavour = rng.choice(["plain", "plain", "gitcolour", "rgcolour", "json", "json"])
+        if flavour != "json" and mll == 60:
+            mll = 200       # a text line must at least keep its `path:number:` prefix
+        limit = 3000 if mll is None else mll
+        long_len = (limit if limit else 300) if si % 3 == 0 else 0
+        st = gen_stream(rng, flavour=flavour, allow_funchdr=variant["full_header"], long_len=long_len)
+        st["variant"], st["mll"] = variant["name"], mll
+        streams.append(st)
     run_streams(ctx, rep, streams, mdl if have_model else None)
 
     # ---- 5. probes for the defect classes found while building this check (each is outside what
@@ -914,6 +982,19 @@ def model_hits_for(ctx, mdl, st):
 
 
 TABW = [8, 8, 4, 1, 0, 2]
+
+
+def stream_tabw(si, st):
+    return VARIANT_OF[st.get("variant", "base")].get("tabw", TABW[si % len(TABW)])
+
+
+def line_truncated(st, k):
+    """Is line k of the stream cut by --max-line-length? (rg --json records never are.)"""
+    if st["flavour"] == "json":
+        return False
+    mll = st.get("mll")
+    limit = 3000 if mll is None else mll
+    return limit > 0 and len(st["lines"][k].encode("utf-8", "surrogateescape")) > limit
 
 
 def run_streams(ctx, rep, streams, mdl):
@@ -961,10 +1042,13 @@ def run_streams(ctx, rep, streams, mdl):
                 sep = KINDS.get(r["kind"], "")
                 pre = r["path"] + sep + (str(r["num"]) + sep if r["num"] is not None else "")
                 # get_code_style_sections recomputes the prefix length from path and number, on the tab-expanded raw line
-                tabw_s = TABW[si % len(TABW)]
+                tabw_s = stream_tabw(si, st)
                 pok = stripped.startswith(pre) and stripped[len(pre):] == r["code"] and ("\t" not in r["path"] or tabw_s in (0, 1))
             else:
                 pok = True
+            if any(line_truncated(st, k) for k in range(len(st["lines"]))):
+                # delta works on the truncated line; the model has no truncation
+                emit_skipped.add(si)
             if not pok and r["kind"] == "match":
                 # what happens then depends on the text the mis-cut sections happen to contain (a panic when
                 # they differ from the code, nothing when e.g. a TAB in the path left blanks there): the model's
@@ -977,16 +1061,18 @@ def run_streams(ctx, rep, streams, mdl):
 
     jobs = []
     for si, st in enumerate(streams):
-        styles = ["classic", "ripgrep"] + (["default"] if st["flavour"] == "json" and si % 3 == 0 else [])
-        tabw = TABW[si % len(TABW)]
+        variant = VARIANT_OF[st.get("variant", "base")]
+        styles = ["classic"] if variant.get("classic_only") else ["classic", "ripgrep"] + (["default"] if st["flavour"] == "json" and si % 3 == 0 else [])
+        tabw = stream_tabw(si, st)
         for style in styles:
             jobs.append((si, style, tabw))
-    results = parallel_map(lambda j: run_stream(ctx, streams[j[0]], j[1], j[2]), jobs)
+    results = parallel_map(lambda j: run_stream(ctx, streams[j[0]], j[1], j[2], VARIANT_OF[streams[j[0]].get("variant", "base")],
+                                                streams[j[0]].get("mll")), jobs)
     emit_reqs, emit_idx = [], []
     for (si, style, tabw), (rc, out, err, args, data) in zip(jobs, results):
         st = streams[si]
         if si in emit_skipped:
-            rep.count("streams:emit-correspondence-skipped:prefix-length-not-recomputable")
+            rep.count("streams:emit-correspondence-skipped:truncated-or-prefix-length-not-recomputable")
             emit_idx.append(None)
         elif fields_per_stream[si] is not None:
             hdr = 0 if st["wflag"] else 1
@@ -1002,10 +1088,13 @@ def run_streams(ctx, rep, streams, mdl):
         nhits = sum(1 for h in st["hits"] if h is not None)
         npaths = len({h["path"] for h in st["hits"] if h is not None})
         rows = decode_rows(out, eff_style) if rc == 0 else []
-        rep.case(key=("stream", data, style, tabw, st["guess"]), nontrivial=nhits >= 2 and (npaths > 1 or "--" in out),
+        rep.case(key=("stream", data, style, tabw, st["guess"], st.get("variant"), st.get("mll")), nontrivial=nhits >= 2 and (npaths > 1 or "--" in out),
                  sample=dict(op="stream", flavour=st["flavour"], style=style, guess=st["guess"], stdin=data.decode("utf-8", "replace")[:400], rows=[list(r) for r in rows[:6]]) if si < 3 else None)
         rep.count(f"streams:{st['flavour']}:{style}")
+        rep.count("options:" + st.get("variant", "base"))
+        rep.count("max-line-length:%s%s" % (st.get("mll"), ":long-records" if any(len(l) > (3000 if st.get("mll") is None else (st.get("mll") or 300)) for l in st["lines"]) else ""))
         replay = dict(kind="stream", args=args, guess=st["guess"], stdin_b64=b64(data), style=eff_style, tabw=tabw,
+                      variant=st.get("variant", "base"), mll=st.get("mll"),
                       hits=[h and {k: v for k, v in h.items() if k != "marked"} for h in st["hits"]], flavour=st["flavour"], wflag=st["wflag"])
         dom, why = in_domain(st, eff_style, frag_per_stream[si])
         rep.count("streams:in-domain" if dom else "streams:outside:" + why)
@@ -1101,9 +1190,19 @@ def judge_stream(rep, st, style, tabw, rc, out, err, rows, replay):
         rep.violation("rows:undecodable", "a row is not path/number/code in the reserved styles: %r" % [r for r in rows if r[0] == "?"][:2], replay)
         return
 
-    def norm(g, w):
+    hit_lines = [k for k, h in enumerate(st["hits"]) if h is not None]
+
+    def norm(g, w, k):
         # ripgrep style appends one blank to unhighlighted code; function headers always do
-        return g == w or g == w + " "
+        if g == w or g == w + " ":
+            return True
+        if line_truncated(st, hit_lines[k]):
+            # --max-line-length cut the input line: a proper prefix of the code plus the truncation symbol
+            for g2 in (g, g[:-1] if g.endswith(" ") else g):
+                # (a wide character that does not fit any more is replaced by a blank)
+                if g2 and len(g2) <= len(w) + 1 and (w.startswith(g2[:-1]) or w.startswith(g2[:-1].rstrip(" "))):
+                    return True
+        return False
     if len(got) != len(want):
         rep.violation("rows:count", f"{len(want)} hits but {len(got)} code rows", dict(replay, want=want, got=got))
         return
@@ -1114,7 +1213,7 @@ def judge_stream(rep, st, style, tabw, rc, out, err, rows, replay):
         if g[1] != w[1]:
             rep.violation("rows:number", f"hit {k}: number {g[1]!r}, expected {w[1]!r}", dict(replay, want=want, got=got))
             return
-        if not norm(g[2], w[2]):
+        if not norm(g[2], w[2], k):
             rep.violation("rows:code", f"hit {k}: code {g[2]!r}, expected {w[2]!r}", dict(replay, want=want, got=got))
             return
     # ripgrep style: one header per run of equal paths
@@ -1232,7 +1331,7 @@ def replay(ctx, rep, obj):
         data = base64.b64decode(case["stdin_b64"])
         rc, out, err = ctx.run_delta(case["args"], data, env={"DELTA_VERIF_FORCE_GUESS": case["guess"]})
         out, err = out.decode("utf-8", "replace"), err.decode("utf-8", "replace")
-        st = dict(flavour=case["flavour"], guess=case["guess"], wflag=case.get("wflag", False), lines=data.decode("utf-8", "replace").split("\n")[:-1],
+        st = dict(flavour=case["flavour"], guess=case["guess"], wflag=case.get("wflag", False), variant=case.get("variant", "base"), mll=case.get("mll"), lines=data.decode("utf-8", "replace").split("\n")[:-1],
                   hits=[h and dict(h, subs=None if h.get("subs") is None else [tuple(s) for s in h["subs"]]) for h in case["hits"]])
         rows = decode_rows(out, case["style"]) if rc == 0 else []
         rep.case(key=("replay", case["stdin_b64"]), nontrivial=True, sample=dict(op="replay", rc=rc, rows=[list(r) for r in rows[:8]], stderr=err[-300:]))
